@@ -56,6 +56,11 @@ Fixed == {
                                      good |-> <<"flt = fn(c: bool) -> int { if c { k9 = 2 } else { return 1 } return 3 }">>],
   [name |-> "missing_return_while", bad |-> <<"flt = fn(c: bool) -> int { while c { return 1 } }" \o M>>,
                                     good |-> <<"flt = fn(c: bool) -> int { while c { return 1 } return 2 }">>],
+  \* the same rule inside a class body: a method that promises a value returns one on every path
+  [name |-> "missing_return_method", bad |-> <<"class KM {", "	fn m(self) -> int {" \o M, "		k9 = 2", "	}", "}", "flt = KM()">>,
+                                     good |-> <<"class KM {", "	fn m(self) -> int {", "		return 2", "	}", "}", "flt = KM()">>],
+  [name |-> "missing_return_method_else", bad |-> <<"class KM {", "	fn m(self, c: bool) -> int {" \o M, "		if c {", "			return 1", "		} else {", "			k9 = 2", "		}", "	}", "}", "flt = KM()">>,
+                                          good |-> <<"class KM {", "	fn m(self, c: bool) -> int {", "		if c {", "			return 1", "		} else {", "			return 2", "		}", "	}", "}", "flt = KM()">>],
   [name |-> "cond_if", bad |-> <<"if 5 { flt = 1 }" \o M>>, good |-> <<"if true { flt = 1 }">>],
   [name |-> "cond_if_str", bad |-> <<"if \"s\" { flt = 1 }" \o M>>, good |-> <<"if true { flt = 1 }">>],
   [name |-> "cond_while", bad |-> <<"while 5 { break }" \o M>>, good |-> <<"while true { break }">>],
